@@ -19,6 +19,7 @@ type Clause struct {
 
 type LoopContract struct {
 	N          int
+	At         string // optional anchor: text of the loop header; binds the contract to that loop whatever its ordinal
 	Invariants []*Clause
 	Assigns    []string // optional loop frame: only these locations change in the loop (checked at every back edge)
 	HasAssigns bool
@@ -46,6 +47,7 @@ type GhostDecl struct {
 }
 
 type FuncContract struct {
+	At         string // optional anchor for closures: a source snippet of the body; binds the contract whatever the closure's ordinal
 	Key        string
 	PkgPath    string // package of the contract file; "" for extern specs
 	Extern     bool
@@ -367,6 +369,15 @@ func (cs *ContractSet) ParseFile(path, pkgPath string) error {
 			curLoop = &LoopContract{N: n}
 			curFn.Loops[n] = curLoop
 			curHook = nil
+		case "at":
+			// anchor of the current loop (if a loop clause is open) or of the current closure
+			if curLoop != nil {
+				curLoop.At = strings.TrimSpace(rest)
+			} else if curFn != nil {
+				curFn.At = strings.TrimSpace(rest)
+			} else {
+				return fmt.Errorf("%s:%d: at outside func", path, line)
+			}
 		case "call", "go", "defer", "send", "recv", "close", "return", "default":
 			if curFn == nil {
 				return fmt.Errorf("%s:%d: hook outside func", path, line)
